@@ -281,6 +281,8 @@ class J1939_22:
             if dest_address == ParameterGroupNumber.Address.GLOBAL:
 
                 # send BAM
+                if pgn.is_pdu1_format:
+                    pgn.pdu_specific = 0  # pdu1: the (global) destination address is not part of the pgn
                 self.__send_tp_bam(priority, src_address, session_num, pgn.value, message_size, num_segments)
 
                 # init new buffer for this connection
